@@ -64,9 +64,9 @@ class TlcResult:
         self.generated = 0
         self.distinct = 0
         self.depth = 0
-        m = re.search(r"(\d+) states generated, (\d+) distinct states found", out)
-        if m:
-            self.generated, self.distinct = int(m.group(1)), int(m.group(2))
+        ms = re.findall(r"^(\d+) states generated, (\d+) distinct states found", out, re.M)
+        if ms:
+            self.generated, self.distinct = int(ms[-1][0]), int(ms[-1][1])
         m = re.search(r"The number of states generated: (\d+)", out)
         if m:
             self.generated = int(m.group(1))
@@ -230,13 +230,15 @@ def compare(expect, obs):
 
 # ---------------------------------------------------------------- findings / reporting
 def load_known():
+    """known_findings.jsonl: one JSON object per known finding {"status":"known","property","key","what"};
+    repaired defects are recorded as plain lines `fixed: property=<id> <commit> <what failed>` and suppress nothing"""
     path = os.path.join(ROOT, "known_findings.jsonl")
     known = []
     if os.path.exists(path):
         with open(path) as fh:
             for line in fh:
                 line = line.strip()
-                if line and not line.startswith("#"):
+                if line and not line.startswith("#") and not line.startswith("fixed:"):
                     known.append(json.loads(line))
     return known
 
